@@ -32,7 +32,7 @@ use graph::number_of_hops;
 
 use crate::{
     identifier::isd_asn::IsdAsn,
-    path::{ScionPath, fingerprint::data_plane::DpPathFingerprint},
+    path::{ScionPath, metadata::path_interface::PathInterface},
     segment::{Entry, PathSegment},
 };
 
@@ -116,14 +116,26 @@ fn has_loops(path: &ScionPath) -> bool {
 /// number of duplicates in wide network topologies.
 #[inline]
 fn filter_duplicates(paths: Vec<ScionPath>) -> Vec<ScionPath> {
-    // Store the index of the path with the latest expiry for every unique path fingerprint.
+    // Store the index of the path with the latest expiry for every unique interface sequence.
     let mut path_result = Vec::new();
-    let mut unique_paths: HashMap<DpPathFingerprint, (u32, usize)> = HashMap::new();
+    let mut unique_paths: HashMap<Vec<PathInterface>, (u32, usize)> = HashMap::new();
     for path in paths.into_iter() {
-        let fingerprint = path.fingerprint();
+        // The sequence of traversed interfaces identifies the route. The data plane fingerprint
+        // does not: it also covers the unused interface of a shortcut hop field and depends on
+        // the direction in which the segments were constructed.
+        let Some(interfaces) = path
+            .metadata
+            .as_ref()
+            .and_then(|metadata| metadata.interfaces.as_ref())
+            .map(|interfaces| interfaces.iter().map(|i| i.interface).collect::<Vec<_>>())
+        else {
+            // Without an interface list there is nothing to compare the path by.
+            path_result.push(path);
+            continue;
+        };
 
-        match unique_paths.entry(fingerprint) {
-            // If we already have a path with the same fingerprint, compare the expiration and keep
+        match unique_paths.entry(interfaces) {
+            // If we already have a path with the same interfaces, compare the expiration and keep
             // the one with the later expiration.
             std::collections::hash_map::Entry::Occupied(mut entry) => {
                 let (current_expiration, existing_vec_index) = entry.get_mut();
